@@ -8,6 +8,7 @@ from .. import paths
 from ..core import FUNC, call_attr, calls_in, const, dotted, is_const, kwarg, norm, text, walk_local
 
 EXPLANATION = [
+    "C12.eatt-mtu: each LeCreditBasedChannel handler that learns the peer's MTU from a connection response recomputes att_mtu afterwards, and no GATT / device code assigns a bearer's att_mtu from outside: both ends of an enhanced bearer hold min(own, peer).",
     "C12.truncation-bound: the value of a notification and of an indication is cut at exactly bearer.att_mtu - 3 (linear-form equality, through single-assignment locals): no other bound (such as the server's preferred MTU) shortens it.",
     'C12.mtu-fresh: in the async methods of gatt_client.Client no local copy of the ATT_MTU (self.mtu) taken before an await is used after it: the long-read threshold is the MTU current when the response arrives.',
     'C12.fanout-independent: Server._notify_or_indicate_subscribers starts one task per subscribed bearer and awaits them together; nothing is awaited inside a loop over the bearers.',
@@ -667,7 +668,35 @@ def truncation_bound(ctx):
     R.check(n >= 2, rule, 'bumble.gatt_server.Server | truncation sites', f'{n} cuts', f'only {n} cuts found')
 
 
+def eatt_mtu(ctx):
+    """Both ends of an enhanced bearer must use the same ATT_MTU, min(own MTU field, peer's MTU field): the server fills a
+    response up to ATT_MTU-1 and the client continues with Read Blob exactly when it received ATT_MTU-1 bytes.  The
+    initiator learns the peer's MTU from the connection response -- each handler that stores peer_mtu from a response
+    recomputes att_mtu -- and nothing outside the channel overrides it with a constant."""
+    R, p = ctx.r, ctx.p
+    rule = 'C12.eatt-mtu'
+    ci = p.cls('bumble.l2cap.LeCreditBasedChannel')
+    if ci is None:
+        R.bad(rule, 'bumble.l2cap.LeCreditBasedChannel', 'anchor missing')
+        return
+    n = 0
+    for name, fn in sorted(ci.methods.items()):
+        learn = [s_ for s_ in walk_local(fn) if isinstance(s_, ast.Assign) and dotted(s_.targets[0]) == 'self.peer_mtu' and 'response' in norm(s_.value)]
+        for s_ in learn:
+            n += 1
+            later = [x for x in walk_local(fn) if isinstance(x, ast.Assign) and dotted(x.targets[0]) == 'self.att_mtu' and x.lineno > s_.lineno]
+            R.check(bool(later), rule, f'bumble.l2cap.LeCreditBasedChannel.{name} | att_mtu follows peer_mtu', 'recomputed once the peer\'s MTU is known', f'{name} learns the peer\'s MTU from the response but leaves att_mtu as computed at construction (when the peer\'s MTU was still 0): the initiator\'s bearer disagrees with the acceptor\'s about ATT_MTU, long values read over it come back truncated', p.loc(s_))
+    R.check(n >= 2, rule, 'bumble.l2cap.LeCreditBasedChannel | response handlers', f'{n} handlers learn the peer MTU', f'only {n} found')
+    for mn in ('bumble.gatt_client', 'bumble.gatt_server', 'bumble.device'):
+        m = p.modules.get(mn)
+        if m is None:
+            continue
+        for st in [x for x in ast.walk(m.tree) if isinstance(x, ast.Assign) and any(isinstance(t, ast.Attribute) and t.attr == 'att_mtu' and dotted(t.value) not in ('self',) for t in x.targets)]:
+            R.bad(rule, f'{p.qual_of(st)} | {norm(st)[:50]}', f'`{norm(st)[:60]}` overrides a bearer\'s ATT_MTU from outside the channel: the two ends of the bearer no longer agree on it', f'{m.rel}:{st.lineno}')
+
+
 RULES = [
+    ('C12.eatt-mtu', eatt_mtu),
     ('C12.truncation-bound', truncation_bound),
     ('C12.mtu-fresh', mtu_fresh),
     ('C12.fanout-independent', fanout_independent),
